@@ -349,7 +349,7 @@ func c12Once(c *Ctx, v *vocab, prop string) {
 		lit *ast.FuncLit
 	}
 	var sites []site
-	for _, fi := range c.P.LibFuncs("broker") {
+	for _, fi := range c.P.LibFuncsAll("broker") {
 		if fi.Decl.Body == nil {
 			continue
 		}
